@@ -38,3 +38,9 @@ Theorem C15_filter_union_timeline_rejected :
   or_kind KFilter KTimeline = inl TypeError /\ or_kind KTimeline KFilter = inl TypeError.
 Proof. exact or_filter_timeline. Qed.
 Print Assumptions C15_filter_union_timeline_rejected.
+
+(* ---- tie C: Timeline.__getitem__ and _coerce_bound as the code has them (translation of the source text) ---- *)
+From CG Require Import Gen.Source Proofs.GenEq7.
+Example C15_source_coerce_is_model : _ := g_coerce_bound_eq.
+Example C15_source_getitem_is_model : _ := g_getitem_is_model.
+Print Assumptions C15_source_getitem_is_model.
